@@ -93,6 +93,14 @@ class Z3Ctx:
             elif a.kind == "sin":
                 c = self.atom(a.data)
                 out.append(v * v + c * c == 1)
+            elif a.kind == "fn":
+                name, args = a.data
+                if name == "pow10":
+                    e = self.poly(args[0])
+                    out += [v > 0, z3.Implies(e < 0, v < 1), z3.Implies(e > 0, v > 1), z3.Implies(e == 0, v == 1)]
+                elif name == "log10":
+                    x = self.poly(args[0])
+                    out += [z3.Implies(x < 1, v < 0), z3.Implies(x > 1, v > 0), z3.Implies(x == 1, v == 0)]
         return out
 
 
